@@ -3,12 +3,14 @@ use crate::engine::Property;
 pub mod c01;
 pub mod c02;
 pub mod c03;
+pub mod c04;
 
 pub fn property(id: &str) -> Option<Property> {
     match id {
         "C01" => Some(c01::property()),
         "C02" => Some(c02::property()),
         "C03" => Some(c03::property()),
+        "C04" => Some(c04::property()),
         _ => None,
     }
 }
